@@ -93,6 +93,16 @@ def peakAt [Classify.Cmp α] (xs : List α) : Classify.Peak :=
 def emaRec [Add α] [Sub α] [Mul α] (w : α) (xs : List α) : Option α :=
   xs.foldl (fun y x => match y with | none => some x | some y => some (y + (x - y) * w)) none
 
+/-- C13: exponential median, `out[n] = post(prev + mid·(pre(x[n]) − prev))` with `pre`, `post` exponential averages
+(`post`'s state is the previous output `prev`), `out[0] = x[0]`; state = (pre-average, previous output) -/
+def emedRec [Add α] [Sub α] [Mul α] (wpre mid wpost : α) (xs : List α) : Option (α × α) :=
+  xs.foldl (fun s x => match s with
+    | none => some (x, x)
+    | some (ps, prev) =>
+      let mean := ps + (x - ps) * wpre
+      let med := prev + (mean - prev) * mid
+      some (mean, prev + (med - prev) * wpost)) none
+
 /-- C14: alpha-beta recurrence; state = (position, velocity) -/
 def abRec [Add α] [Sub α] [Mul α] [OfNat α 0] (alpha beta : α) (xs : List α) : Option (α × α) :=
   xs.foldl (fun s x => match s with
